@@ -106,6 +106,21 @@ def assigned_names(stmts, indirect=None):
     return names
 
 
+def same_value(a, b):
+    if a is b:
+        return True
+    if isinstance(a, SVal) and isinstance(b, SVal):
+        return a.kind == b.kind and all(x.eq(y) for x, y in zip(a.t, b.t))
+    if isinstance(a, LocalDict) and isinstance(b, LocalDict):
+        return set(a.d) == set(b.d) and all(same_value(a.d[k], b.d[k]) for k in a.d)
+    if isinstance(a, TupleVal) and isinstance(b, TupleVal):
+        return len(a.items) == len(b.items) and all(same_value(x, y) for x, y in zip(a.items, b.items))
+    try:
+        return bool(a == b)
+    except Exception:    # noqa
+        return False
+
+
 class StmtMixin:
 
     def ex(self, stmts, st, fr):
@@ -633,11 +648,6 @@ class StmtMixin:
         """Havoc everything the loop body may modify; found by a dry run."""
         indirect = set()
         names = assigned_names(body_stmts, indirect) | set(extra_names)
-        for n in indirect:
-            v = st.env.get(n)
-            if isinstance(v, LocalDict) or (isinstance(v, SVal) and isinstance(v.kind, (KList, KDict, KSet, KCounter, KOpt))) \
-                    or isinstance(v, TupleVal):
-                names.add(n)
         # dry run to find modified heap keys
         self.dry += 1
         try:
@@ -651,9 +661,10 @@ class StmtMixin:
                 for k, arr in s2.heap.items():
                     if k not in before or not before[k].eq(arr):
                         changed.add(k)
-                for n in list(s2.env):
-                    if n not in st.env:
-                        pass
+                # locals changed through subscript/attribute stores or mutator calls (found dynamically)
+                for n in indirect:
+                    if n in st.env and n in s2.env and not same_value(st.env[n], s2.env[n]):
+                        names.add(n)
         finally:
             self.dry -= 1
             del self.ax_buffer[:]
